@@ -233,6 +233,9 @@ func init() {
 		if err := json.Unmarshal(raw, &c); err != nil {
 			return failf("REPLAY-HARNESS-ERROR: %v", err)
 		}
+		fixNil(&c.A)
+		fixNil(&c.B)
+		fixNil(&c.C)
 		fl, herr := checkC11(&c)
 		if herr != "" {
 			return failf("REPLAY-HARNESS-ERROR: %s", herr)
